@@ -93,7 +93,86 @@ finalize = Contract(
     uses=["mokapot.tabular_data.BufferedWriter._write_buffer"],
 )
 
-CONTRACTS = [buffer_slice, write_buffer, append_data, finalize]
+# ---- readers: chunk arithmetic --------------------------------------------------------------------------------
+_DFN = "len(self.df)"
+_ROWK = "(self.df[k * chunk_size + i] if columns is None else row_proj(self.df[k * chunk_size + i], columns))"
+
+frame_reader_chunks = Contract(
+    target="mokapot.tabular_data.DataFrameReader.get_chunked_data_iterator",
+    params={"chunk_size": "int", "columns": "opt[list[str]]"},
+    defaults={"columns": "None"},
+    self_fields={"df": "list[Row]"},
+    yields="list[Row]",
+    requires=["chunk_size >= 1"],
+    ensures=[
+        # as many chunks as needed, each of the right size, chunk k = rows [k*c, k*c + len) in order, with the
+        # requested columns: concatenating the chunks is the whole table
+        "len(yielded) == (%s + chunk_size - 1) // chunk_size" % _DFN,
+        "all(len(yielded[k]) == min(chunk_size, %s - k * chunk_size) for k in range(len(yielded)))" % _DFN,
+        "all(yielded[k][i] == %s for k in range(len(yielded)) for i in range(len(yielded[k])))" % _ROWK,
+    ],
+    loops={0: Loop(invariant=[
+        "len(yielded) == _k0",
+        "all(len(yielded[k]) == min(chunk_size, %s - k * chunk_size) for k in range(_k0))" % _DFN,
+        "all(yielded[k][i] == %s for k in range(_k0) for i in range(len(yielded[k])))" % _ROWK,
+    ])},
+)
+
+PF_ROWS = Ghost("pf_rows", "PFile -> list[Row]")
+PF_OF = Ghost("pf_of", "FPath -> PFile")
+_PN = "len(pf_rows(pf_of(self.file_name)))"
+_PROW = ("(pf_rows(pf_of(self.file_name))[k * chunk_size + j] if columns is None else "
+         "row_proj(pf_rows(pf_of(self.file_name))[k * chunk_size + j], columns))")
+
+LIB_CONTRACTS = [
+    Contract(target="lib:PFile.iter_batches", params={"self": "PFile", "batch_size": "int", "columns": "opt[list[str]]"},
+             returns="list[list[Row]]", skip_body=True, global_ghosts=[PF_ROWS],
+             requires=["batch_size >= 1"],
+             ensures=[
+                 "len(result) == (len(pf_rows(self)) + batch_size - 1) // batch_size",
+                 "all(len(result[k]) == min(batch_size, len(pf_rows(self)) - k * batch_size) "
+                 "for k in range(len(result)))",
+                 "all(result[k][j] == (pf_rows(self)[k * batch_size + j] if columns is None else "
+                 "row_proj(pf_rows(self)[k * batch_size + j], columns)) "
+                 "for k in range(len(result)) for j in range(len(result[k])))",
+             ],
+             notes="pyarrow ParquetFile.iter_batches(n, columns): consecutive blocks of exactly n rows except the "
+                   "last, across row groups (validated for the installed pyarrow by the bounded run)"),
+]
+
+parquet_file = Contract(
+    target="pq.ParquetFile", params={"path": "FPath"}, returns="PFile", skip_body=True,
+    global_ghosts=[PF_OF], ensures=["result == pf_of(path)"],
+    notes="pq.ParquetFile(path): a handle on the rows of the file")
+
+parquet_reader_chunks = Contract(
+    target="mokapot.tabular_data.ParquetFileReader.get_chunked_data_iterator",
+    params={"chunk_size": "int", "columns": "opt[list[str]]"},
+    defaults={"columns": "None"},
+    self_fields={"file_name": "FPath"},
+    yields="tuple[list[Row],nd[int]]",          # a yielded frame = (rows, index)
+    global_ghosts=[PF_ROWS, PF_OF],
+    requires=["chunk_size >= 1"],
+    ensures=[
+        "len(yielded) == (%s + chunk_size - 1) // chunk_size" % _PN,
+        "all(len(yielded[k][0]) == min(chunk_size, %s - k * chunk_size) for k in range(len(yielded)))" % _PN,
+        "all(len(yielded[k][1]) == len(yielded[k][0]) for k in range(len(yielded)))",
+        # chunk k holds rows [k*c, ...) of the file and its index is the GLOBAL row number (continues across chunks)
+        "all(yielded[k][0][j] == %s for k in range(len(yielded)) for j in range(len(yielded[k][0])))" % _PROW,
+        "all(yielded[k][1][j] == k * chunk_size + j for k in range(len(yielded)) for j in range(len(yielded[k][1])))",
+    ],
+    loops={0: Loop(invariant=[
+        "len(yielded) == _k0",
+        "all(len(yielded[k][0]) == min(chunk_size, %s - k * chunk_size) for k in range(_k0))" % _PN,
+        "all(len(yielded[k][1]) == len(yielded[k][0]) for k in range(_k0))",
+        "all(yielded[k][0][j] == %s for k in range(_k0) for j in range(len(yielded[k][0])))" % _PROW,
+        "all(yielded[k][1][j] == k * chunk_size + j for k in range(_k0) for j in range(len(yielded[k][1])))",
+    ])},
+    uses=["pq.ParquetFile=pq.ParquetFile"],
+)
+
+CONTRACTS = [buffer_slice, write_buffer, append_data, finalize, frame_reader_chunks, parquet_reader_chunks,
+             parquet_file]
 BOUNDED = {"module": "harness.c13"}
 
 MUTANTS = [
@@ -113,6 +192,18 @@ MUTANTS = [
      "replace": "                    [data, self.buffer], axis=0, ignore_index=True"},
     {"name": "append-overwrites-dict-buffer", "target": "mokapot.tabular_data.BufferedWriter.append_data",
      "find": "            self.buffer += data", "replace": "            self.buffer = data"},
+    {"name": "parquet-index-offset-by-batch-length", "target": "mokapot.tabular_data.ParquetFileReader.get_chunked_data_iterator",
+     "find": "df.index = df.index + i * chunk_size", "replace": "df.index = df.index + i * len(df)"},
+    {"name": "parquet-index-not-shifted", "target": "mokapot.tabular_data.ParquetFileReader.get_chunked_data_iterator",
+     "find": "            df.index = df.index + i * chunk_size\n", "replace": ""},
+    {"name": "parquet-columns-dropped", "target": "mokapot.tabular_data.ParquetFileReader.get_chunked_data_iterator",
+     "find": "pf.iter_batches(chunk_size, columns=columns)", "replace": "pf.iter_batches(chunk_size, columns=None)"},
+    {"name": "frame-chunks-overlap", "target": "mokapot.tabular_data.DataFrameReader.get_chunked_data_iterator",
+     "find": "chunk = self.df.iloc[pos : pos + chunk_size]", "replace": "chunk = self.df.iloc[pos : pos + chunk_size + 1]"},
+    {"name": "frame-chunks-skip-a-row", "target": "mokapot.tabular_data.DataFrameReader.get_chunked_data_iterator",
+     "find": "for pos in range(0, len(self.df), chunk_size):", "replace": "for pos in range(0, len(self.df), chunk_size + 1):"},
+    {"name": "frame-columns-ignored", "target": "mokapot.tabular_data.DataFrameReader.get_chunked_data_iterator",
+     "find": "yield chunk if columns is None else chunk[columns]", "replace": "yield chunk"},
     {"name": "slice-ignores-start", "target": "mokapot.tabular_data.BufferedWriter._buffer_slice",
      "find": "            slice = self.buffer[start:end]", "replace": "            slice = self.buffer[0:end]"},
 ]
